@@ -25,18 +25,20 @@ Open Scope nat_scope.
    dispatcher's entry for PathIOError is [response 451; continue]; the backend call sites of every handler,
    helper and worker are exactly the ones the model's bodies make (nobody else has one; only RNTO touches
    connection state before its call); every worker detaches the data connection first, replies after its
-   contexts and has a known context shape; the PathConditions table is the model's; and [params_ok]: the
+   contexts and has a known context shape; the PathConditions table is the model's; no handler, helper,
+   worker or decorator between a backend call and the dispatcher has a `with` or a try catching anything
+   but CancelledError / TimeoutError (the exception does reach the dispatcher); and [params_ok]: the
    single premise of the theorems below *)
 Theorem C13_source_obligations :
   translator_ok = true /\ faultsites_ok = true /\ all_wrapped = true /\ ue_ok = true /\ filectx_ok = true /\
-  react_ok gen_react = true /\ sites_ok = true /\ workers_ok = true /\ conds_ok = true /\
+  react_ok gen_react = true /\ sites_ok = true /\ workers_ok = true /\ conds_ok = true /\ propagates_ok = true /\
   params_ok pathcond_defs gen_react gen_wrapped gen_cstor gen_cretr gen_clist gen_cmlsd = true.
 Proof. vm_compute. repeat split. Qed.
 Print Assumptions C13_source_obligations.
 
 Definition gen_params_ok :
   params_ok pathcond_defs gen_react gen_wrapped gen_cstor gen_cretr gen_clist gen_cmlsd = true :=
-  proj2 (proj2 (proj2 (proj2 (proj2 (proj2 (proj2 (proj2 (proj2 C13_source_obligations)))))))).
+  proj2 (proj2 (proj2 (proj2 (proj2 (proj2 (proj2 (proj2 (proj2 (proj2 C13_source_obligations))))))))).
 
 Notation gstep users blk :=
   (fstep users gen_table pathcond_defs gen_react gen_wrapped gen_cstor gen_cretr gen_clist gen_cmlsd blk).
